@@ -155,3 +155,21 @@ pub trait SizedHeap {
     fn cell_len(&self) -> (r: usize) ensures r == self.cells();
     fn as_slice(&self) -> (r: &[u8]) ensures r@.len() == 8 * self.cells();
 }
+
+// ---- byte-slice helpers standing for iterator pipelines / range indexing (R6)
+pub open spec fn first_zero(s: Seq<u8>) -> int decreases s.len() {
+    if s.len() == 0 { 0 } else if s[0] == 0 { 0 } else { 1 + first_zero(s.skip(1)) }
+}
+// `slice.iter().position(|b| *b == 0).unwrap_or(slice.len())`
+#[verifier::external_body]
+pub fn first_zero_or_len(s: &[u8]) -> (r: usize) ensures r == first_zero(s@), r <= s@.len() { unimplemented!() }
+#[verifier::external_body]
+pub fn slice_prefix<'a>(s: &'a [u8], n: usize) -> (r: &'a [u8]) requires n <= s@.len() ensures r@ == s@.take(n as int) { unimplemented!() }
+#[verifier::external_body]
+pub fn slice_from<'a>(s: &'a [u8], n: usize) -> (r: &'a [u8]) requires n <= s@.len() ensures r@ == s@.skip(n as int) { unimplemented!() }
+#[verifier::external_body]
+pub fn str_from_bytes(s: &[u8]) -> (r: StrRef) ensures r.n() == s@.len() { unimplemented!() }
+impl StrRef {
+    pub uninterp spec fn bytes(&self) -> Seq<u8>;
+    #[verifier::external_body] pub fn as_bytes(&self) -> (r: &[u8]) ensures r@ == self.bytes(), r@.len() == self.n() { unimplemented!() }
+}
